@@ -19,7 +19,7 @@ func init() {
 		Explain: "Decides by effect analysis over the call graph (all built-in extensions included): (S) no store into configuration/global memory is reachable from Convert/Parse/Render outside the sync.Once initialisers, so no state can survive a call; (R) nothing reachable from Render writes AST node memory except nil-guarded memoisation of a value computed from the node itself; (N) no nondeterminism source (map iteration, time, rand, goroutines, select) is reachable per call; (E) Convert is exactly reader := NewReader(source); Parse; Render with the same source. Does NOT decide byte equality across equivalent option spellings, user-supplied extensions, or a caller-supplied Context/IDs object.",
 		Trusted: []string{"type-directed memory classes (DESIGN 2.3)", "VTA call graph with pass-site refinement (DESIGN 2.2)", "no unsafe writes (C12-X)"},
 		Assumes: []string{"user-supplied extensions, parsers, renderers and Context objects are out of scope"},
-		Rules:   []func(*World, *Report){ruleNoSharedState("C06-S"), ruleStatelessSharedObjects, ruleRenderReadOnly, ruleNoNondeterminism, ruleConvertShape},
+		Rules:   []func(*World, *Report){ruleNoSharedState("C06-S"), ruleStatelessSharedObjects, ruleRenderReadOnly, ruleNoNondeterminism, ruleOptionsCommute, ruleConvertShape},
 	})
 	register(&Property{
 		ID:      "C07",
@@ -847,4 +847,95 @@ func ruleStatelessSharedObjects(w *World, r *Report) {
 		}
 	}
 	r.Expect("foreign method calls on shared objects", n, 10)
+}
+
+// ---- C06-O: options applied from a map must commute ---------------------------------------------------
+
+// ruleOptionsCommute: Render's initialiser replays the option map (random iteration order) through SetOption.
+// The configuration is the same for every order only if the effects of different option names commute; the
+// structural sufficient condition checked here: different names store to disjoint fields.
+func ruleOptionsCommute(w *World, r *Report) {
+	r.Rule("C06-O", "Renderer options are replayed from a map (random order) through SetOption(name, value). In every module SetOption method the arms selected by different option names store to pairwise disjoint receiver fields (an arm may forward to an embedded SetOption): otherwise the resulting configuration, and with it the output, depends on map iteration order and differs between two instances built from the same options.")
+	n := 0
+	for _, fn := range w.Funcs {
+		if fn.Name() != "SetOption" || fn.Signature.Recv() == nil || len(fn.Params) != 3 || fn.Parent() != nil {
+			continue
+		}
+		nameP := fn.Params[1]
+		if !isString(nameP.Type()) {
+			continue
+		}
+		recvT := namedOf(fn.Params[0].Type())
+		if recvT == nil || !w.InModuleType(recvT) {
+			continue
+		}
+		type arm struct {
+			name   string
+			fields map[string]bool
+			pos    string
+		}
+		var arms []arm
+		for _, b := range fn.Blocks {
+			iff, ok := b.Instrs[len(b.Instrs)-1].(*ssa.If)
+			if !ok {
+				continue
+			}
+			bo, ok := iff.Cond.(*ssa.BinOp)
+			if !ok || bo.Op != token.EQL {
+				continue
+			}
+			var cs string
+			if stripConv(bo.X) == ssa.Value(nameP) {
+				cs, ok = constString(stripConv(bo.Y))
+			} else if stripConv(bo.Y) == ssa.Value(nameP) {
+				cs, ok = constString(stripConv(bo.X))
+			} else {
+				continue
+			}
+			if !ok {
+				continue
+			}
+			a := arm{name: cs, fields: map[string]bool{}, pos: w.InstrPos(iff)}
+			for _, x := range fn.Blocks {
+				if !edgeDominates(b, 0, x) {
+					continue
+				}
+				for _, ins := range x.Instrs {
+					st, ok := ins.(*ssa.Store)
+					if !ok {
+						continue
+					}
+					root, p, ok := addrFieldPath(st.Addr)
+					if !ok || root != ssa.Value(fn.Params[0]) {
+						continue
+					}
+					a.fields[fieldPathName(recvT, p)] = true
+				}
+			}
+			arms = append(arms, a)
+		}
+		if len(arms) == 0 {
+			continue
+		}
+		n++
+		key := w.FnKey(fn)
+		bad := false
+		for i := 0; i < len(arms); i++ {
+			for j := i + 1; j < len(arms); j++ {
+				if arms[i].name == arms[j].name {
+					continue
+				}
+				for f := range arms[i].fields {
+					if arms[j].fields[f] {
+						bad = true
+						r.Bad(fmt.Sprintf("%s: options %q and %q", key, arms[i].name, arms[j].name), arms[j].pos, fmt.Sprintf("both arms store to field %s: the final value depends on the order in which the option map is replayed", f))
+					}
+				}
+			}
+		}
+		if !bad {
+			r.OK(key, w.FnPos(fn), fmt.Sprintf("%d option arms store to pairwise disjoint fields", len(arms)))
+		}
+	}
+	r.Expect("SetOption methods with named arms", n, 3)
 }
